@@ -118,8 +118,16 @@ class SymNCO(REINFORCE):
                 # Reshape batch to [batch, n_start, n_aug]
                 if out.get("actions", None) is not None:
                     actions = unbatchify(out["actions"], (n_start, n_aug))
+                    # best start for every (instance, augmentation): [batch_size, n_aug, seq_len]
+                    best_start_idxs = max_idxs[:, None, :, None].expand(
+                        -1, 1, -1, actions.size(-1)
+                    )
                     out.update(
-                        {"best_multistart_actions": gather_by_index(actions, max_idxs)}
+                        {
+                            "best_multistart_actions": actions.gather(
+                                1, best_start_idxs
+                            ).squeeze(1)
+                        }
                     )
                     out["actions"] = actions
 
